@@ -4,10 +4,10 @@
 package world
 
 import (
-	"strings"
 	"encoding/json"
 	"fmt"
 	"sort"
+	"strings"
 	"time"
 
 	"cosmossdk.io/log"
@@ -200,7 +200,9 @@ func (w *World) BeginBlock(ctx sdk.Context) error {
 }
 
 // ValidatorKey is the fixed consensus key of the single validator.
-func ValidatorKey() cmted25519.PrivKey { return cmted25519.GenPrivKeyFromSecret([]byte("verif-validator")) }
+func ValidatorKey() cmted25519.PrivKey {
+	return cmted25519.GenPrivKeyFromSecret([]byte("verif-validator"))
+}
 
 // GenesisJSON renders the deterministic genesis for cfg.
 func GenesisJSON(a *app.App, cfg Config) ([]byte, error) {
